@@ -391,6 +391,23 @@ func provablyNonNil(v ssa.Value, depth int) (bool, string) {
 // (frames written twice, the other recording's file orphaned, a nil writer after the first stop).
 func checkSinksDistinct(w *World, r *Report, runs *motionRuns, rule string) {
 	c := runs.model.C
+	// inside the processor too: its constructor keeps each of the three recorder arguments in a field of its own
+	{
+		perRole := map[int][]string{}
+		for fi, role := range c.SinkField {
+			perRole[role] = append(perRole[role], c.fieldName(fi))
+		}
+		ok := len(perRole) == 3
+		var parts []string
+		for role := 0; role < 3; role++ {
+			sort.Strings(perRole[role])
+			parts = append(parts, fmt.Sprintf("%s -> %v", c.RoleNames[role], perRole[role]))
+			if len(perRole[role]) != 1 {
+				ok = false
+			}
+		}
+		r.Check(ok, rule, "the processor keeps the motion, continuous and test recorders it is given in three different fields (none twice, none dropped)", w.Pos(c.Ctor.Pos()), strings.Join(parts, " ; "))
+	}
 	var origins func(v ssa.Value, depth int, out map[ssa.Value]bool)
 	origins = func(v ssa.Value, depth int, out map[ssa.Value]bool) {
 		if v == nil || depth > 8 || out[v] {
